@@ -1,6 +1,7 @@
 package main
 
 import (
+	"strconv"
 	"fmt"
 	"go/token"
 	"go/types"
@@ -119,6 +120,15 @@ func descValue(v ssa.Value, depth int) string {
 		}
 		if lo == "" && hi == "" {
 			return descValue(x.X, depth)
+		}
+		// s[a:][:n] is s[a:a+n]
+		if in, ok := x.X.(*ssa.Slice); ok && x.Low == nil && x.High != nil && in.Low != nil && in.High == nil && in.Max == nil {
+			a, okA := constInt(in.Low)
+			n, okN := constInt(x.High)
+			if okA && okN {
+				return descValue(in.X, depth) + "[" + strconv.FormatInt(a, 10) + ":" + strconv.FormatInt(a+n, 10) + "]"
+			}
+			return descValue(in.X, depth) + "[" + descValue(in.Low, depth+1) + ":" + descValue(in.Low, depth+1) + "+" + hi + "]"
 		}
 		return descValue(x.X, depth) + "[" + lo + ":" + hi + "]"
 	case *ssa.UnOp:
